@@ -283,8 +283,14 @@ def tr(pid, tier, replay, own, modes, design, rule, prepare=None):
     jobs = []
     for mode, nq, nt, shards in modes:
         for i in range(shards):
-            jobs.append({"cmd": ["tr-run", "--mode", mode, "--n", str(nt if big else nq), "--seed", str(seed() * 100 + i)],
-                         "label": "%s-%d" % (mode, i)})
+            job = {"cmd": ["tr-run", "--mode", mode, "--n", str(nt if big else nq), "--seed", str(seed() * 100 + i)],
+                   "label": "%s-%d" % (mode, i)}
+            if i % 2 == 1:
+                # every other shard runs in a local time zone that is not UTC (dates are instants, not wall-clock readings)
+                import os as _os
+                job["env"] = dict(_os.environ, TZ="Asia/Kolkata" if i % 4 == 1 else "America/Los_Angeles")
+                job["label"] += "-tz"
+            jobs.append(job)
     plan = {
         "module": "TraceTranslate", "cfg": "TraceTranslate.cfg", "own": own, "design": design, "jobs": jobs,
         "replay_cmd": lambda path: ["tr-run", "--replay", path],
